@@ -95,13 +95,13 @@ def n_position(ex, callee, a, env):
     return NONE()
 
 
-@native(r'^(core::)?slice::<impl \[.*\]>::first$', 'slice::first')
+@native(r'^(core::)?slice::<impl \[.*\]>::first(_mut)?$', 'slice::first')
 def n_first(ex, callee, a, env):
     sl = as_slice(a[0])
     return Some(Ref(sl.buf, sl.start)) if sl.len > 0 else NONE()
 
 
-@native(r'^(core::)?slice::<impl \[.*\]>::last$', 'slice::last')
+@native(r'^(core::)?slice::<impl \[.*\]>::last(_mut)?$', 'slice::last')
 def n_last(ex, callee, a, env):
     sl = as_slice(a[0])
     return Some(Ref(sl.buf, sl.start + sl.len - 1)) if sl.len > 0 else NONE()
@@ -328,7 +328,7 @@ _RESIDUAL_CACHE = {}
 @native(r'as FromResidual<.*>>::from_residual$', 'FromResidual::from_residual')
 def n_from_residual(ex, callee, a, env):
     r = a[0]
-    if r.ty == 'Option':
+    if re.search(r'FromResidual<(core::option::|std::option::)?Option<', callee) or getattr(r, 'ty', None) == 'Option':
         return NONE()
     key = (callee, None if not env else tuple(sorted(env.items())))
     info = _RESIDUAL_CACHE.get(key)
